@@ -182,8 +182,10 @@ Inductive case :=
   (* Resolve(cur,new) and, as seen by the real parser with architecture `-`: ParseVerbatim(cur), ParseVerbatim(new),
      ParseVerbatim(result) *)
   | CResolve (cur new : bytes) (o_res : option bytes) (o_cur o_new o_resparsed : option chan)
+             (o_res2 : option bytes)   (* Resolve(cur, result) when Resolve(cur,new) succeeded, else None *)
   (* ResolvePinned(track,new); ParseVerbatim(result) *)
   | CPinned (track new : bytes) (o_res : pres) (o_resparsed : option chan)
+            (o_res2 : pres)   (* ResolvePinned(track, result) when the first call succeeded, else PInvalid *)
   (* snapstate.resolveChannel for a snap that is / is not the model's kernel / gadget, with the model's tracks *)
   | CSnap (is_kernel is_gadget : bool) (ktrack gtrack old new : bytes) (o_res : option bytes).
 
@@ -202,12 +204,14 @@ Definition mismatch (c : case) : bool :=
           negb (opt_eqb chan_eqb (parse sys (chan_string ch) a) orp)
       end
   | CClean ch oc oc2 => negb (chan_eqb (clean ch) oc) || negb (chan_eqb (clean (clean ch)) oc2)
-  | CResolve cur new ores ocur onew orp =>
+  | CResolve cur new ores ocur onew orp ores2 =>
+      negb (opt_eqb beq (match resolve cur new with Some r => resolve cur r | None => None end) ores2) ||
       negb (opt_eqb beq (resolve cur new) ores) ||
       negb (opt_eqb chan_eqb (parse_verbatim [] cur dash) ocur) ||
       negb (opt_eqb chan_eqb (parse_verbatim [] new dash) onew) ||
       negb (opt_eqb chan_eqb (match ores with Some r => parse_verbatim [] r dash | None => None end) orp)
-  | CPinned track new ores orp =>
+  | CPinned track new ores orp ores2 =>
+      negb (pres_eqb (match resolve_pinned track new with POk r => resolve_pinned track r | _ => PInvalid end) ores2) ||
       negb (pres_eqb (resolve_pinned track new) ores) ||
       negb (opt_eqb chan_eqb (match ores with POk r => parse_verbatim [] r dash | _ => None end) orp)
   | CSnap ik ig kt gt old new ores => negb (opt_eqb beq (resolve_channel ik ig kt gt old new) ores)
@@ -256,7 +260,12 @@ Definition monitor_fail (c : case) : bool :=
           negb (opt_eqb beq of_ (Some want))
       end
   | CClean ch oc oc2 => negb (chan_eqb oc oc2)
-  | CResolve cur new ores ocur onew orp =>
+  | CResolve cur new ores ocur onew orp ores2 =>
+      (* resolving twice equals resolving once, when the current channel parses and its track is not spelled like a risk *)
+      (match ocur, ores with
+       | Some cc, Some r => negb (existsb (beq (c_track cc)) risks) && negb (opt_eqb beq ores2 (Some r))
+       | _, _ => false
+       end) ||
       (* a request that names a risk (optionally a branch) but no track keeps the current track *)
       match ocur, onew with
       | Some cc, Some nc =>
@@ -269,7 +278,9 @@ Definition monitor_fail (c : case) : bool :=
           else false
       | _, _ => false
       end
-  | CPinned track new ores orp =>
+  | CPinned track new ores orp ores2 =>
+      (* resolving twice under a pinned track equals resolving once *)
+      (match ores with POk r => negb (pres_eqb ores2 (POk r)) | _ => false end) ||
       if is_nil_b track then false
       else match ores with
            | POk r =>
